@@ -25,13 +25,21 @@ import (
 
 var errFound = errors.New("found")
 
+var errDeferredDepth = errors.New("deferred predicates nested too deeply (unbounded recursion?)")
+
 // QueryContext groups data needed for evaluating a query top-down (backward chaining).
 type QueryContext struct {
 	PredToRules        map[ast.PredicateSym][]ast.Clause
 	PredToDecl         map[ast.PredicateSym]*ast.Decl
 	Store              factstore.ReadOnlyFactStore
 	ExternalPredicates map[ast.PredicateSym]ExternalPredicateCallback
+	// Nesting of deferred predicates in the current resolution (a copy per level).
+	depth int
 }
+
+// maxDeferredDepth bounds the nesting of deferred predicates: resolution has no loop check, a
+// deferred predicate that calls itself with the same arguments would recurse for ever.
+const maxDeferredDepth = 1000
 
 // EvalQuery evaluates a query top-down, according to mode and union-find-subst.
 // The mode must consist only of ArgModeInput (+) and ArgModeOutput (-).
@@ -149,6 +157,10 @@ func (q QueryContext) EvalPremise(premise ast.Term, subst unionfind.UnionFind) (
 		}
 		decl := q.PredToDecl[p.Predicate]
 		if decl != nil && decl.DeferredPredicate() {
+			if q.depth >= maxDeferredDepth {
+				return nil, errDeferredDepth
+			}
+			q.depth++
 			err := q.EvalQuery(p, decl.Modes()[0], subst, func(fact ast.Atom) error {
 				newsubst, err := unionfind.UnifyTermsExtend(p.Args, fact.Args, subst)
 				if err != nil {
